@@ -458,6 +458,8 @@ def run(rep):
     if crashes:
         rep.crash = crashes[0]
     from pgv.replayers import c10 as R10
+    for res in R10.model_isotherm_fraction_cases():
+        rep.add_bounded(f"{P}/bounded.{res['name']}", res['ok'], res['detail'], replay={'kind': 'c10.fraction', 'name': res['name']})
     for res in R10.order_cases():
         rep.add_bounded(f"{P}/bounded.{res['name']}", res['ok'], res['detail'], replay={'kind': 'c10.order_case', 'name': res['name']})
     for res in R10.key_order_cases():
